@@ -10,7 +10,7 @@ use crate::Tier;
 use serde_json::json;
 use std::panic::{catch_unwind, AssertUnwindSafe};
 
-const HEADS: &[&[u8]] = &[b"", b"id", b"id desc", b" lead", b"a  b ", b"x>y", b"\xffz \xc3", b"id d e", b"a\tb c\x0bd"];
+const HEADS: &[&[u8]] = &[b"", b"id", b"id desc", b" lead", b"a  b ", b"x>y", b"\xffz \xc3", b"id d e", b"a\tb c\x0bd", b"id ", b" ", b"a  "];
 
 /// parse `out` with the reference model AND the real reader; both must give `want` (head, seq)
 fn parse_back_fasta(out: &[u8], want: &[(Vec<u8>, Vec<u8>)]) -> Result<(), String> {
